@@ -22,6 +22,10 @@ var (
 
 var fallback = std.New(std.NewSource(1))
 
+// ResetFallback re-seeds the source used outside simulated runs (single-threaded stream
+// harnesses), so that a run does not depend on what ran before it in the same process.
+func ResetFallback(seed int64) { fallback = std.New(std.NewSource(seed)) }
+
 func g() *std.Rand {
 	if simrt.S == nil {
 		return fallback
